@@ -79,6 +79,16 @@ def repo_sources():
     return out
 
 
+def _prune_cache(prefix, keep=6):
+    """disk space is limited: keep only the most recently used cached builds"""
+    try:
+        ds = sorted((d for d in os.listdir(CACHE) if d.startswith(prefix)), key=lambda d: os.path.getmtime(os.path.join(CACHE, d)), reverse=True)
+        for d in ds[keep:]:
+            shutil.rmtree(os.path.join(CACHE, d), ignore_errors=True)
+    except OSError:
+        pass
+
+
 def build_harness(extra_flags=(), tag="main"):
     """Build bsimpl from the CURRENT /repo tree; cached under .cache/<hash>/."""
     key = tree_hash([os.path.join(REPO, "include"), os.path.join(REPO, "src/common"), os.path.join(REPO, "src/csv"),
@@ -86,7 +96,10 @@ def build_harness(extra_flags=(), tag="main"):
     outdir = os.path.join(CACHE, "harness-" + key)
     exe = os.path.join(outdir, "bsimpl")
     if os.path.exists(exe):
+        os.utime(outdir, None)
         return exe, None
+    _prune_cache("harness-")
+    _prune_cache("aux-", keep=4)
     os.makedirs(outdir, exist_ok=True)
     srcs = [os.path.join(HARNESS, f) for f in sorted(os.listdir(HARNESS)) if f.endswith(".cpp")] + repo_sources()
     objs = []
